@@ -21,7 +21,7 @@ PLAN_ENTRY = {'stages': [
         'the side of a curve near a vertex / of a mesh is defined by the local wedge rule and, for closed convex meshes, by inside/outside (checked against each other by TLC on the convex instances)']}
 
 CLAIM = {
-    'text': 'TLC enumerates (a) every ascending breakpoint table with repeats (<=3 entries over 4 values quick, <=4 over 6 thorough) against every half-lattice x +-1 ulp from below the start to beyond the end and checks that binary search with ANY pivot refines the L1 table semantics (None when empty or below the first breakpoint, last zone beyond the end, zone of the greatest breakpoint <= x with equal breakpoints free); (b) directed distances for lattice a, b and rational unit directions in 2D and 3D (value = (b-a).dir, reversal, centre); (c) nine curated nominal polylines (both windings, acute and reflex corners, open ends, collinear, doubling back, self-crossing) against every half-lattice point of the surrounding box and closed boxes, a 3-4-5 wedge, a tetrahedron, an open quad and an open roof against every half-lattice point around them: |deviation|^2 equals the exact rational squared distance, the reference point is a closest point on the nominal, reference + direction*value reconstructs the measured point, the sign follows the outward-normal side (wedge rule at vertices, inside/outside for convex closed meshes - TLC checks both readings agree), plane mode = normal component for a face through the reference point; line_surface_deviations must return the same per-point results and true extremes; (d) EVERY deviation-set history new(0..2 values)|default followed by 3 (thorough 4) pushes over values -2..2, with the L2 transcription of the cached max/min indices proven to refine the true extremes in every reachable state; (e) EVERY point-cloud history constructor (all presence / wrong-length combinations) followed by 2 (thorough 3) calls of append / merge / create_from_indices / transform with every presence combination, with an L2 micro-step transcription (checks before mutations, one mutation per array) proven atomic against L1 and two deliberately broken transcriptions rejected. Every case and behaviour is executed by the real library and TLC judges each observation against L1. Seeded random generators add larger tables, curves, meshes and 60-200 step histories.',
+    'text': 'TLC enumerates (a) every ascending breakpoint table with repeats (<=3 entries over 4 values quick, <=4 over 6 thorough) against every half-lattice x +-1 ulp from below the start to beyond the end and checks that binary search with ANY pivot refines the L1 table semantics (None when empty or below the first breakpoint, last zone beyond the end, zone of the greatest breakpoint <= x with equal breakpoints free); (b) directed distances for lattice a, b and rational unit directions in 2D and 3D (value = (b-a).dir, reversal, centre); (c) nine curated nominal polylines (both windings, acute and reflex corners, open ends, collinear, doubling back, self-crossing) against every half-lattice point of the surrounding box and closed boxes, a 3-4-5 wedge, a tetrahedron, an open quad and an open roof against every half-lattice point around them: |deviation|^2 equals the exact rational squared distance, the reference point is a closest point on the nominal, reference + direction*value reconstructs the measured point, the sign follows the outward-normal side (wedge rule at vertices, inside/outside for convex closed meshes - TLC checks both readings agree), plane mode = normal component for a face through the reference point; line_surface_deviations must return the same per-point results and true extremes; (d) EVERY deviation-set history new(0..2 values)|default followed by 3 (thorough 4) pushes over values -2..2, with the L2 transcription of the cached max/min indices proven to refine the true extremes in every reachable state; (e) EVERY point-cloud history constructor (all presence / wrong-length combinations) followed by 2 (thorough 3) calls of append / merge / create_from_indices / transform with every presence combination, with an L2 micro-step transcription (checks before mutations, one mutation per array) proven atomic against L1 and two deliberately broken transcriptions rejected. Every case and behaviour is executed by the real library and TLC judges each observation against L1. Seeded random generators add larger tables, curves, meshes and 60-200 step histories. Tolerance tables are also built incrementally: every sequence of up to 3 (4) values offered to DiscreteDomain::push, with the accept/reject answers and the resulting table judged against the model (PushTable). At an edge shared by exactly two faces the sign of a point-mode mesh deviation is decided exactly by the cone spanned by the two normals (MeshEdgeSide), exercised on a 37-degree V groove.',
     'design_ref': 'DESIGN.md section 6 C16',
     'note': 'Trusted: TLC, the harness projection, lattice/half-lattice inputs standing for the continuum. Not covered: the Interval filter of line_surface_deviations, ConstantTolMap, Distance2/3 to_3d/to_2d, solid meshes (is_solid = true), sign for non-convex meshes when the closest point is on an edge or vertex (left free), NaN inputs. Three defects were found and repaired (fixes/1..3).',
     'technique': 'TLA+ spec (L1 semantics + L2 algorithm transcriptions) + TLC: bounded model checking, TLC-generated cases and behaviours replayed into engeom, TLC trace validation of recorded observations',
